@@ -43,8 +43,15 @@ impl Record {
     pub fn alignment_end(&self) -> Option<Position> {
         self.alignment_start.and_then(|start| {
             // A placed record without any base (e.g., an unmapped mate with `SEQ` = `*`) still
-            // occupies its start position.
-            let end = usize::from(start) + self.alignment_span().max(1) - 1;
+            // occupies its start position. An unmapped record is not aligned: it only occupies its
+            // start position, and its bases may extend past the end of the reference sequence.
+            let span = if self.bam_flags.is_unmapped() {
+                1
+            } else {
+                self.alignment_span().max(1)
+            };
+
+            let end = usize::from(start) + span - 1;
             Position::new(end)
         })
     }
